@@ -12,8 +12,9 @@ import time
 
 ROOT = os.path.dirname(os.path.dirname(os.path.abspath(__file__)))
 REPO = os.environ.get('VP_REPO', '/repo')
-REPLAYS = os.path.join(ROOT, 'replays')
-EVIDENCE = os.path.join(ROOT, 'evidence')
+_OUT = os.environ.get('VP_OUT')      # seeded-mutant runs write their evidence / replays elsewhere
+REPLAYS = os.path.join(_OUT or ROOT, 'replays')
+EVIDENCE = os.path.join(_OUT or ROOT, 'evidence')
 PY = os.path.join(ROOT, '.venv', 'bin', 'python')      # overlay: /venv + crosshair + z3
 PLAIN_PY = '/venv/bin/python'                          # what the test-suite runs on
 
